@@ -399,7 +399,67 @@ def sc_defaults(cfg):
     return scenario
 
 
-SCEN = dict(defaults=sc_defaults, learner=sc_learner, learner_rt=sc_learner_roundtrip, stacking=sc_stacking, skbase=sc_skbase, cak=sc_cak, cak_clone=sc_cak_clone, anmf=sc_anmf)
+def sc_roundtrip_behaviour(cfg):
+    """scikit-learn style estimators of the library: after b.set_params(**a.get_params(deep=True)) the second
+    object BEHAVES like the first -- which code path it takes (KMeansL1L2 norm), how it builds its inner solver
+    (QuantileLinearRegression), also when it was already fitted with its former configuration"""
+    km = loader.load("mlmodel.kmeans_l1")
+    qr = loader.load("mlmodel.quantile_regression")
+    from . import c05
+
+    def scenario(C):
+        # ---- KMeansL1L2: the norm decides the implementation
+        norms = ["L1", "L2"]
+        n0, n1 = norms[C.choice("norm_before", 2)], norms[C.choice("norm_after", 2)]
+        k = 2 + C.choice("k", 3)
+        a = km.KMeansL1L2(norm=n1, n_clusters=k)
+        b = km.KMeansL1L2(norm=n0, n_clusters=3)
+        r = b.set_params(**a.get_params(deep=True))
+        C.true(r is b, "set_params-returns-self")
+        _same_params(C, b.get_params(deep=True), a.get_params(deep=True), "roundtrip/same-parameters")
+        calls = []
+
+        def rec(name):
+            def f(self, *args, **kw):
+                calls.append(name)
+                return self if name.endswith("fit") else numpy.zeros(2)
+
+            return f
+
+        X = numpy.arange(8.0).reshape(4, 2)
+        with harness.patched(km.KMeans, fit=rec("L2.fit"), predict=rec("L2.predict"), transform=rec("L2.transform")), harness.patched(km.KMeansL1L2, _fit_l1=rec("L1.fit"), _predict_l1=rec("L1.predict"), _transform_l1=rec("L1.transform")), harness.patched(km, check_is_fitted=lambda *a_, **k_: None):
+            b._check_test_data = lambda Xa: Xa
+            b.fit(X)
+            b.predict(X)
+            b.transform(X)
+        C.true(calls == [f"{n1}.fit", f"{n1}.predict", f"{n1}.transform"], "roundtrip/behaves-identically(KMeansL1L2-runs-the-implementation-of-its-current-norm)", detail=(n0, n1, calls))
+        # ---- QuantileLinearRegression: fitted with one configuration, reconfigured, fitted again
+        p0, p1 = bool(C.choice("positive_before", 2)), bool(C.choice("positive_after", 2))
+        src = qr.QuantileLinearRegression(positive=p1, fit_intercept=False, max_iter=2)
+        dst = qr.QuantileLinearRegression(positive=p0, fit_intercept=True, max_iter=3)
+        inits = []
+
+        class LR(c05.StubLR):
+            def __init__(self, **kw):
+                inits.append(kw)
+
+            def fit(self, Xm, yy, sample_weight=None):
+                self.coef_ = numpy.zeros(Xm.shape[1])
+                return self
+
+        with harness.patched(qr, LinearRegression=LR):
+            Xq, yq = numpy.arange(6.0).reshape(3, 2), numpy.array([1.0, 2.0, 4.0])
+            dst.fit(Xq, yq)
+            dst.set_params(**src.get_params(deep=True))
+            del inits[:]
+            dst.fit(Xq, yq)
+        _same_params(C, dst.get_params(deep=True), src.get_params(deep=True), "roundtrip/same-parameters")
+        C.true(len(inits) >= 1 and all(kw.get("positive", False) == p1 and kw.get("fit_intercept") is False for kw in inits), "roundtrip/behaves-identically(QuantileLinearRegression-builds-its-solver-from-the-current-parameters)", detail=(p0, p1, inits[:2]))
+
+    return scenario
+
+
+SCEN = dict(roundtrip_behaviour=sc_roundtrip_behaviour, defaults=sc_defaults, learner=sc_learner, learner_rt=sc_learner_roundtrip, stacking=sc_stacking, skbase=sc_skbase, cak=sc_cak, cak_clone=sc_cak_clone, anmf=sc_anmf)
 
 
 def _sig(cfg):
@@ -446,6 +506,7 @@ def configs(tier):
             for m in (0, 1) if wrap else (3,):
                 out.append(dict(kind="stacking", N=N, wrap=wrap, method=m))
     out.append(dict(kind="skbase"))
+    out.append(dict(kind="roundtrip_behaviour"))
     out.append(dict(kind="defaults"))
     out.append(dict(kind="cak"))
     for est in (0, 1):
@@ -459,6 +520,8 @@ def configs(tier):
 def run(ctx, rep):
     rep.add_functions("sklapi.sklearn_parameters", ["SkLearnParameters.__init__", "SkLearnParameters.validate", "SkLearnParameters.to_dict"])
     rep.add_functions("sklapi.sklearn_base", ["SkBase.__init__", "SkBase.get_params", "SkBase.set_params"])
+    rep.add_functions("mlmodel.kmeans_l1", ["KMeansL1L2.__init__", "KMeansL1L2.fit", "KMeansL1L2.predict", "KMeansL1L2.transform"])
+    rep.add_functions("mlmodel.quantile_regression", ["QuantileLinearRegression.__init__", "QuantileLinearRegression.fit"])
     rep.add_functions("sklapi.sklearn_base_transform_learner", ["SkBaseTransformLearner.__init__", "SkBaseTransformLearner._set_method", "SkBaseTransformLearner.get_params", "SkBaseTransformLearner.set_params", "SkBaseTransformLearner.transform"])
     rep.add_functions("sklapi.sklearn_base_transform_stacking", ["SkBaseTransformStacking.__init__", "SkBaseTransformStacking.get_params", "SkBaseTransformStacking.set_params", "SkBaseTransformStacking.transform"])
     rep.add_functions("mlmodel.classification_kmeans", ["ClassifierAfterKMeans.__init__", "ClassifierAfterKMeans.get_params", "ClassifierAfterKMeans.set_params"])
